@@ -227,7 +227,8 @@ PROPS = {
     "C02": {
         "rules": [r_viterbi.viterbi, r_viterbi.traceback, r_panic.run_narrow_lattice,
                   kind_scope("tokenizer", "connector", "lexicon::param", "unknown"),
-                  r_reset.run_tokens, r_panic.run_costsum, r_map.run_compose, r_codec.derived_caches, r_panic.fieldwidth, r_scorer.pruneset, r_scorer.rowrange],
+                  r_reset.run_tokens, r_panic.run_costsum, r_map.run_compose, r_codec.derived_caches, r_panic.fieldwidth, r_scorer.pruneset, r_scorer.rowrange,
+                  r_scorer.padval, r_scorer.reserved0],
         "explanation": "VITERBI: insert_node/insert_eos take (argmin, min) from one search over "
                        "the complete predecessor list of the very start_node they store, with "
                        "cost(pred.right_id, own left_id), min_cost = best + word_cost, EOS "
@@ -261,7 +262,7 @@ PROPS = {
     "C08": {
         "rules": [r_map.run_user, r_map.run_compose, r_map.verifystrict, r_cand.cand, r_token.dispatch,
                   kind_scope("dictionary::lexicon", "dictionary::Dictionary", "dictionary::connector"),
-                  r_misc.optkeep_dictionary, r_feat.rawinput, r_panic.run_errprop],
+                  r_misc.optkeep_dictionary, r_feat.rawinput, r_panic.run_errprop, r_feat.run],
         "explanation": "MAPKEEP: a user lexicon is translated by the stored mapper, then verified "
                        "against the dictionary's connector (failure returns Err), then installed; "
                        "None clears; replace not merge; only verified installation points write "
@@ -502,11 +503,11 @@ _ADDED2 = {
     "C11": "RAWINPUT (second level): library functions hand their caller's reader to Lexicon::from_reader / UnkHandler::from_reader unchanged. PACK: every value packed into a shared integer (`a | b << s`) is known to fit the gap up to the next field (type, mask, or a rejecting comparison on every path) - a (posting offset, homograph count) pair packed without a bound on the count would lose homographs.",
     "C10": "PACK as for C11: CharInfo::new rejects every value that does not fit its bit field. RAWBUILD (FTSMAX): the row width is folded over both bigram files.",
     "C01": "FIELDWIDTH: no position-, length- or count-carrying field of vibrato's types is narrowed to 16 bits or less relative to the confirmed tree (spec/field_types.json).",
-    "C02": "VITERBI also requires insert_node to append its node on every path (no merging of candidates at insertion). PRUNESET (the C07 rule): the dual connector keeps the cost lines of the empty BOS/EOS feature, i.e. the connections from the sentence start and to the sentence end. FIELDWIDTH as for C01 (back-pointers and start positions of lattice nodes).",
+    "C02": "PADVAL / RESERVED0 (the C07 rules): padding lanes of the raw connector carry the invalid feature id and the BOS/EOS rows the empty feature, so the connection costs the path sums are the defined ones. VITERBI also requires insert_node to append its node on every path (no merging of candidates at insertion). PRUNESET (the C07 rule): the dual connector keeps the cost lines of the empty BOS/EOS feature, i.e. the connections from the sentence start and to the sentence end. FIELDWIDTH as for C01 (back-pointers and start positions of lattice nodes).",
     "C04": "FIELDWIDTH as for C01. OPTKEEP / OPTSET: the Tokenizer option setters return their receiver, and a field a setter assigns on one path it assigns on every successful path, so the options in force are a function of the last call's arguments and not of the history of option calls.",
     "C12": "OPTSET as for C04 (ignore_space / max_grouping_len). UNKSPAN: a prefix candidate is skipped on account of the sentence length only when it would end beyond the last character, so a sentence-final word has the candidates it has in front of a space run.",
     "C15": "SCALE (the C14 rule): the scale factor is recomputed from the current merged model by each writer (a memoised factor would survive read_user_lexicon and differ from a re-read model).",
-    "C08": "RAWINPUT / ERRPROP over the user-lexicon reader: the caller's bytes reach the parser unchanged and no read or parse error is swallowed. OPTSET as for C04, over the Dictionary's by-value methods. MAPKEEP reset clauses: every Ok exit of reset_user_lexicon_from_reader assigns data.user_lexicon; with a None reader the only value assigned is None.",
+    "C08": "FEATSPAN (the C11 rule): Lexicon::parse_csv, which also reads the user lexicon, rejects rows with fewer than four columns and accounts for every consumed byte (a malformed user row is an error, not a word with an empty feature). RAWINPUT / ERRPROP over the user-lexicon reader: the caller's bytes reach the parser unchanged and no read or parse error is swallowed. OPTSET as for C04, over the Dictionary's by-value methods. MAPKEEP reset clauses: every Ok exit of reset_user_lexicon_from_reader assigns data.user_lexicon; with a None reader the only value assigned is None.",
     "C05": "SIMDBUILD (AVX2 build): U31x8::decode and to_simd_vec build their vector by an in-order load of the whole (padded) array. LANES: U31x8::encode writes lanes 0..7 in order in both build configurations.",
     "C07": "ACCUM (portable and AVX2 builds): accumulate_cost pairs keys1[i] with keys2[i] through plain zips (no skip/rev/take), starts at zero and only adds lookup results; the AVX2 build sums lanes 0..7 once each. SCORERCHK (AVX2) also requires base = bases[key1] gathered under key1 < bases_len, zero for masked-out lanes and the 4-byte gather scale. LANES and SIMDBUILD as for C05. CSVROW as for C17 (cells of bigram.right/left lines). KIND over compile's main: the readers opened from --bigram-right-in / --bigram-left-in reach the builder parameters of their own side.",
     "C06": "KIND over map's main: the list read from *.lmap is the left mapping argument and *.rmap the right one.",
